@@ -17,7 +17,7 @@ thread_local! {
 pub fn set_u(u: f64) {
     TRACK_U.with(|c| c.set(u));
 }
-fn cur_u() -> f64 {
+pub fn cur_u() -> f64 {
     TRACK_U.with(|c| c.get())
 }
 
@@ -36,7 +36,7 @@ impl Tr {
     }
     /// upper bound on the magnitude of the evaluated value: |model| + u * bound (keeps products of
     /// two rounding residues inside the bound)
-    fn amax(&self) -> Jet<f64> {
+    pub fn amax(&self) -> Jet<f64> {
         self.v.abs().add(&self.e.scale(&cur_u()))
     }
     pub fn constant(b: &Basis, x: f64) -> Tr {
@@ -87,7 +87,16 @@ impl Tr {
         let mag = ax.compose(&gm[..=d], b);
         // propagation: majorant of g' composed with |x~|, times e_x
         let dm: Vec<f64> = (0..=d).map(|k| (k + 1) as f64 * gm[k + 1]).collect();
-        let dj = ax.compose(&dm, b);
+        // the derivative majorant is evaluated over the whole uncertainty of the operand: the
+        // real part's own error u*e_0 enters like a nilpotent magnitude (covers e.g. cos(delta)
+        // where the model operand is exactly 0 and the evaluated one a rounding residue)
+        let mut axd = ax.nil();
+        axd.c[0] = cur_u() * self.e.c[0];
+        let mut dj = Jet::constant(b, dm[d]);
+        for k in (0..d).rev() {
+            dj = dj.mul(&axd, b);
+            dj.c[0] += dm[k];
+        }
         let e = dj.mul(&self.e, b).add(&mag.scale(&2.0));
         Tr { v, e }
     }
